@@ -237,7 +237,7 @@ def run(ctx: Ctx) -> None:
     import re as _re
     for name in list(srcs)[:ctx.n(12, 200)]:
         ep, nodes, root_entry = lark_roots[name]
-        paths = [n.full_path for n in ep.procedural()]
+        paths = [n.full_path for n in ep.procedural() if '__empty__' not in n.full_path]      # (placeholders of absent optional parts are not nodes)
         for via in rnd.sample(paths, min(len(paths), ctx.n(12, 80))):
             elems = via.split('.')
             tags = [_re.sub(r'\[\d+\]$', '', e) for e in elems]
